@@ -18,8 +18,33 @@ let rle (xs : string list) : string =
                 else go (if n > 0 then (Printf.sprintf "%s*%d" cur n) :: acc else acc) x 1 r in
   String.concat "," (go [] "" 0 xs)
 
+(* step level: the rows of the stored vault after every prefix of the operation's step list *)
+let steps_line case rest =
+  match kv rest "op", kv rest "sid", kv rest "body", kv rest "folder", kv rest "before" with
+  | Some op, Some sid, Some body, Some folder, Some before ->
+    let rows0 = List.filter_map (fun e ->
+      match String.index_opt e ':' with
+      | Some k -> Some (String.sub e 0 k, String.sub e (k + 1) (String.length e - k - 1))
+      | None -> None) (split_on ',' before) in
+    let s0 = { rows = rows0; flog = [] } in
+    let (steps, names) = match op with
+      | "C" -> (steps_create sid body, ["fs_vault.insert_secret.row_appended"; "fs_log.append.written"])
+      | "U" -> (steps_update String.equal s0 sid body,
+                ["fs_vault.splice.truncated"; "fs_vault.splice.row_written"; "fs_vault.splice.tail_written"; "fs_log.append.written"])
+      | _ -> (steps_delete String.equal s0 sid,
+              ["fs_vault.splice.truncated"; "fs_vault.splice.tail_written"; "fs_log.append.written"]) in
+    let firstn n l = List.filteri (fun i _ -> i < n) l in
+    List.iteri (fun j name ->
+      if j < List.length steps then begin
+        let st = run s0 (firstn (j + 1) steps) in
+        Printf.printf "%s rows %s %s %s\n" case folder name
+          (String.concat "," (List.map (fun (i, b) -> i ^ ":" ^ b) st.rows))
+      end) names
+  | _ -> Printf.printf "%s unmodelled\n" case
+
 let run_line (line : string) : unit =
   match String.split_on_char ' ' line |> List.filter (fun s -> s <> "") with
+  | _ :: case :: "steps" :: rest -> steps_line case rest
   | _ :: case :: rest when rest <> [] ->
     (match kv rest "k", kv rest "side", kv rest "file", kv rest "kind", kv rest "old", kv rest "hex" with
      | Some k, Some side, Some file, Some kind, Some old, Some hex ->
